@@ -537,3 +537,79 @@ pub fn ep_discovery() -> Vec<Pos> {
     }
     out
 }
+
+/// "En passant is the only reply": a pawn's double step gives check, and the only legal move of
+/// the checked side is to capture that pawn en passant (so the position is NOT a mate, the double
+/// step is a check and not a mating move). Enumerated: pusher (2) x pawn file (8) x checked king
+/// on either square the pawn attacks x capturing pawn on either side x pusher's king on any
+/// square x one more pusher piece (Q, R, B, N) on any square; kept when the model says every legal
+/// move is an en-passant capture. Returns the positions after the double step, and the positions
+/// before it (whose move list contains the double step to be annotated).
+pub fn ep_only_reply() -> (Vec<Pos>, Vec<Pos>) {
+    use rayon::prelude::*;
+    let jobs: Vec<(Side, i8)> = [Side::White, Side::Black].iter().flat_map(|s| (0..8i8).map(move |f| (*s, f))).collect();
+    let res: Vec<(Vec<Pos>, Vec<Pos>)> = jobs
+        .par_iter()
+        .map(|(pusher, f)| {
+            let mover = pusher.other();
+            let (from_r, mid_r, to_r, king_r) = if *pusher == Side::White { (1i8, 2i8, 3i8, 4i8) } else { (6i8, 5i8, 4i8, 3i8) };
+            let (mut after, mut before) = (Vec::new(), Vec::new());
+            let to = mk_sq(*f, to_r).unwrap();
+            let mid = mk_sq(*f, mid_r).unwrap();
+            let from = mk_sq(*f, from_r).unwrap();
+            for kdf in [-1i8, 1] {
+                let ks = match mk_sq(*f + kdf, king_r) {
+                    Some(k) => k,
+                    None => continue,
+                };
+                for cdf in [-1i8, 1] {
+                    let cs = match mk_sq(*f + cdf, to_r) {
+                        Some(c) => c,
+                        None => continue,
+                    };
+                    for pk in 0..64u8 {
+                        if [to, mid, from, ks, cs].contains(&pk) || ((file_of(pk) - file_of(ks)).abs() <= 1 && (rank_of(pk) - rank_of(ks)).abs() <= 1) {
+                            continue;
+                        }
+                        for xs in 0..64u8 {
+                            if [to, mid, from, ks, cs, pk].contains(&xs) {
+                                continue;
+                            }
+                            for xk in [Kind::Queen, Kind::Rook, Kind::Bishop, Kind::Knight] {
+                                let mut p = Pos::empty();
+                                p.stm = mover;
+                                p.sq[to as usize] = Some((Kind::Pawn, *pusher));
+                                p.sq[ks as usize] = Some((Kind::King, mover));
+                                p.sq[cs as usize] = Some((Kind::Pawn, mover));
+                                p.sq[pk as usize] = Some((Kind::King, *pusher));
+                                p.sq[xs as usize] = Some((xk, *pusher));
+                                p.ep = Some(mid);
+                                let legal = p.legal_moves();
+                                if legal.is_empty() || legal.iter().any(|m| m.kind != MoveKind::EnPassant) || !p.is_consistent() {
+                                    continue;
+                                }
+                                let mut q = p.clone();
+                                q.stm = *pusher;
+                                q.ep = None;
+                                q.sq[to as usize] = None;
+                                q.sq[from as usize] = Some((Kind::Pawn, *pusher));
+                                if q.is_consistent() {
+                                    before.push(q);
+                                }
+                                after.push(p);
+                            }
+                        }
+                    }
+                }
+            }
+            (after, before)
+        })
+        .collect();
+    let mut a = Vec::new();
+    let mut b = Vec::new();
+    for (x, y) in res {
+        a.extend(x);
+        b.extend(y);
+    }
+    (a, b)
+}
